@@ -71,6 +71,12 @@ pub enum Op {
     AdvanceDays(u8),
     /// the owner upgrades the operators contract and completes the migration: the operator set must be carried over
     UpgradeAndMigrate,
+    /// the owner upgrades the operators contract and leaves the migration for later: until the next
+    /// `UpgradeAndMigrate` the contract is in its upgraded-but-not-migrated state (whether the owner's and the operators'
+    /// calls are served in that state is not decided by the statement; what must fail, must still fail)
+    OwnerStartsUpgrade,
+    /// somebody who is not the owner tries to make themselves the owner (signing the call themselves)
+    SeizeOwnership { by: By },
 }
 
 #[derive(Clone, Debug, Serialize, Deserialize)]
@@ -121,6 +127,8 @@ fn op() -> impl Strategy<Value = Op> {
             .prop_map(|(caller, auth, call)| Op::Execute { caller, auth, call }),
         1 => (1u8..60).prop_map(Op::AdvanceDays),
         1 => Just(Op::UpgradeAndMigrate),
+        1 => Just(Op::OwnerStartsUpgrade),
+        2 => prop_oneof![Just(By::Stranger), Just(By::FormerOwner), Just(By::Nobody)].prop_map(|by| Op::SeizeOwnership { by }),
     ]
 }
 
@@ -153,7 +161,7 @@ impl Property for C17 {
         "C17"
     }
     fn rule(&self) -> &'static str {
-        "proptest histories (<=25 quick / <=45 thorough ops) over 4 addresses: add / remove operator (duplicates and absent addresses included) authorised by the owner, a former owner, a stranger or nobody; ownership transfer; execute(caller, target function, args) with the caller's own authorisation, the owner's instead, another operator's instead, or none, against a probe target offering echo1, echo3, sum, noargs, store and a failing function, plus wrong-arity and unknown-function calls, and collect_fees forwarded to a real gas service whose collector is the operators contract, with arguments of eight value kinds. Oracle: set model (membership swept over the pool after every step); execute succeeds iff the caller authorised and is a member at that moment and the target call succeeds; then the probe's call log grows by exactly one entry with the same function and arguments and the returned value equals the probe's; otherwise the call fails with the ledger snapshot identical. non-trivial = history contains an execute by a former member, or a successfully forwarded call with >= 2 arguments; distinct by Debug hash. A share of the random cases is an entry-point sweep (construction as described for C13: the exported functions of all shipped contracts read from the sources of the tree under test, a complete deployed system, pooled arguments - including well-formed signer sets nobody installed and proofs properly signed by the gateway's own signer set over digests that belong to no command -, every require_auth satisfied by the host's mock and recorded; entry points absent from the pinned inventory get 300 deterministic cases each); oracle: a gas service whose collector is the operators contract pays out only if a current operator is among the recorded signers (forwarded calls are generated well-formed: target, function name and arguments chosen together); non-trivial = the call succeeded"
+        "proptest histories (<=25 quick / <=45 thorough ops) over 4 addresses: add / remove operator (duplicates and absent addresses included) authorised by the owner, a former owner, a stranger or nobody; ownership transfer; attempts by a stranger / the former owner / nobody to make themselves the owner; the owner starting an upgrade and leaving the migration pending (until the next upgrade-and-migrate step calls that must succeed are undecided, calls that must fail must still fail); execute(caller, target function, args) with the caller's own authorisation, the owner's instead, another operator's instead, or none, against a probe target offering echo1, echo3, sum, noargs, store and a failing function, plus wrong-arity and unknown-function calls, and collect_fees forwarded to a real gas service whose collector is the operators contract, with arguments of eight value kinds. Oracle: set model (membership swept over the pool after every step); execute succeeds iff the caller authorised and is a member at that moment and the target call succeeds; then the probe's call log grows by exactly one entry with the same function and arguments and the returned value equals the probe's; otherwise the call fails with the ledger snapshot identical. non-trivial = history contains an execute by a former member, or a successfully forwarded call with >= 2 arguments; distinct by Debug hash. A share of the random cases is an entry-point sweep (construction as described for C13: the exported functions of all shipped contracts read from the sources of the tree under test, a complete deployed system, pooled arguments - including well-formed signer sets nobody installed and proofs properly signed by the gateway's own signer set over digests that belong to no command -, every require_auth satisfied by the host's mock and recorded; entry points absent from the pinned inventory get 300 deterministic cases each); oracle: a gas service whose collector is the operators contract pays out only if a current operator is among the recorded signers (forwarded calls are generated well-formed: target, function name and arguments chosen together); non-trivial = the call succeeded"
     }
     fn cases(&self, tier: Tier) -> u64 {
         tier.pick(4000, 60000)
@@ -210,9 +218,48 @@ impl Property for C17 {
         let mut log_len: u32 = 0;
         let mut nontrivial = false;
         let mut days_passed: u32 = 0;
+        let mut window = false;
 
         for (step, op) in case.ops.iter().enumerate() {
             match op {
+                Op::OwnerStartsUpgrade => {
+                    env.mock_all_auths();
+                    let h = soroban_sdk::BytesN::from_array(&env, &empty_wasm_hash());
+                    ensure_p!(matches!(ops.try_upgrade(&h), Ok(Ok(()))), "step {}: the owner's upgrade was refused", step);
+                    window = true;
+                    cx.label("upgrade_started_migration_pending");
+                }
+                Op::SeizeOwnership { by } => {
+                    let signer: Option<Address> = match by {
+                        By::FormerOwner => Some(former_owner.clone().unwrap_or_else(|| stranger.clone())),
+                        By::Nobody => None,
+                        _ => Some(stranger.clone()),
+                    };
+                    let new = signer.clone().unwrap_or_else(|| stranger.clone());
+                    if new == owner {
+                        continue;
+                    }
+                    match &signer {
+                        Some(s) if is_account_kind(s) => {
+                            cx.count("skipped_account_kind_signer_other_than_the_principal");
+                            continue;
+                        }
+                        Some(s) => {
+                            let inv = MockAuthInvoke { contract: &ops_id, fn_name: "transfer_ownership", args: (new.clone(),).into_val(&env), sub_invokes: &[] };
+                            env.mock_auths(&[MockAuth { address: s, invoke: &inv }]);
+                        }
+                        None => env.mock_auths(&[]),
+                    }
+                    let snap0 = snapshot(&env);
+                    let r = ops.try_transfer_ownership(&new);
+                    cx.count("must_fail");
+                    if window {
+                        nontrivial = true;
+                        cx.label("ownership_grab_while_migration_pending");
+                    }
+                    ensure_p!(!matches!(r, Ok(Ok(()))), "step {} {:?}: ownership of the operators contract (and with it the say over who is an operator) went to an address the owner never named, without the owner's authorisation (migration pending: {})", step, op, window);
+                    ensure_p!(snapshot(&env) == snap0, "step {} {:?}: refused ownership transfer changed state", step, op);
+                }
                 Op::AdvanceDays(d) => {
                     if days_passed + *d as u32 <= 200 {
                         days_passed += *d as u32;
@@ -221,6 +268,7 @@ impl Property for C17 {
                 }
                 Op::UpgradeAndMigrate => {
                     upgrade_and_migrate(&env, &ops.address).map_err(|e| format!("step {}: {}", step, e))?;
+                    window = false;
                     cx.label("upgrade_and_migration_in_history");
                 }
                 Op::TransferOwnership { to } => {
@@ -269,6 +317,9 @@ impl Property for C17 {
                     let ok = if adding { matches!(ops.try_add_operator(&pool[wi]), Ok(Ok(()))) } else { matches!(ops.try_remove_operator(&pool[wi]), Ok(Ok(()))) };
                     if undecided {
                         cx.count("either");
+                    } else if expect_ok && window && !ok {
+                        cx.count("either");
+                        ensure_p!(snapshot(&env) == snap0 && events_len(&env) == ev0, "step {} {:?}: refused call changed state", step, op);
                     } else if expect_ok {
                         cx.count("must_succeed");
                         ensure_p!(ok, "step {} {:?}: owner-authorised change of an {} address refused", step, op, if adding { "absent" } else { "present" });
@@ -344,7 +395,10 @@ impl Property for C17 {
                     let ev0 = events_len(&env);
                     let r = ops.try_execute(&pool[ci], &callee, &func, &sargs);
                     let ok = matches!(r, Ok(Ok(_)));
-                    if expect_ok {
+                    if expect_ok && window && !ok {
+                        cx.count("either");
+                        ensure_p!(snapshot(&env) == snap0 && events_len(&env) == ev0, "step {} {:?}: refused call changed state", step, op);
+                    } else if expect_ok {
                         cx.count("must_succeed");
                         ensure_p!(ok, "step {} {:?}: current operator's authorised call was not forwarded: {:?}", step, op, r);
                         let ret: Val = r.unwrap().unwrap();
